@@ -234,6 +234,7 @@ func (c *VCtx) callbackCall(fr *Frame, st *State, cc *ssa.CallCommon, f *Term, a
 
 // spawn handles "go f(args)": the callee's precondition must hold; the callee is verified separately.
 func (c *VCtx) spawn(fr *Frame, st *State, cc *ssa.CallCommon, fv *FnVal, args []Val) {
+	c.bumpCalls(st, c.declare("fnid!"+FuncKey(fv.Fn), SRef))
 	ct := c.eng.ContractOf(fv.Fn)
 	if ct == nil {
 		return
@@ -253,6 +254,10 @@ func (c *VCtx) applyContract(fr *Frame, st *State, cc *ssa.CallCommon, ct *FuncC
 		g := c.translateBool(sc, r.E)
 		c.prove(fmt.Sprintf("call.requires.%s.%s", FuncKey(callee), clauseLabel(r, i)), "precondition of "+FuncKey(callee)+": "+r.Src, st.pc, g, nil)
 		c.fact(Implies(st.pc, g))
+	}
+	if ct.Opts["frame"] == "skip" {
+		// the callee's frame is not verified: everything may have changed
+		c.havocAll(st)
 	}
 	c.applyModifies(st, ct, callee, fv, args)
 	var res Val
